@@ -279,7 +279,7 @@ std::vector<std::pair<int, OpK>> weights_for(const std::string &kind) {
   if (kind == "C20")
     return {{30, PUT}, {8, DEL}, {6, BATCH}, {4, GET}, {8, FLUSH}, {7, CRANGE}, {1, COMPACT}, {3, REOPEN},
             {2, SNAP}, {1, RELEASE}, {2, ITER_NEW}, {3, ITER}, {1, ITER_DEL}, {2, CHECK}, {1, FILL},
-            {8, BACKUP}, {3, BCHECK}, {3, COPY}, {3, DESTROY}, {4, LOCKPROBE}, {5, BADOPEN}, {3, FOREIGN}};
+            {8, BACKUP}, {3, BCHECK}, {3, COPY}, {3, DESTROY}, {4, LOCKPROBE}, {5, BADOPEN}, {3, FOREIGN}, {1, REPAIR}};
   if (kind == "C17")
     return {{26, PUT}, {8, DEL}, {6, BATCH}, {2, GET}, {12, FLUSH}, {12, CRANGE}, {3, COMPACT}, {12, REOPEN},
             {2, SNAP}, {1, RELEASE}, {1, ITER_NEW}, {1, ITER}, {1, CHECK}, {3, FILL}, {1, READS}};
@@ -301,6 +301,27 @@ std::string new_snap(Profile &p) {
 void skeleton(Profile &p, std::vector<std::string> &out) {
   int c = uni(0, 99);
   if (const char *force = getenv("VF_GEN_SKEL")) c = atoi(force);  // experiments only
+  // "grandparent overlap" (rare, expensive: ~12 MiB and ~5 s; 2 in 10 000 quick cases, 1.2 % of the long thorough cases): twelve 1 MiB tables in level 2, then a sparse table spanning all of
+  // them is compacted from level 0 into level 1 -- the only way to make a compaction cut its output because it overlaps
+  // more than 10 x max_file_size of the level below its target (ldb_compaction_should_stop_before)
+  if (c == 1000 || ((p.kind == "C14" || p.kind == "C01" || p.kind == "C13") && uni(0, 9999) < (p.thorough ? 120 : 2))) {
+    int per = pick<int>({{2, 4000}, {1, 2500}});
+    int n = 12600000 / per;
+    out.push_back(fmt("fill 0 %d %d %d", n, per, 2 * uni(0, 20) + 1));
+    out.push_back("crange 0 - -");
+    out.push_back("crange 1 - -");
+    int sparse = uni(8, 14);
+    for (int i = 0; i < sparse; i++) {
+      int k = (int)((long)i * (n - 1) / (sparse - 1));
+      out.push_back(chance(85) ? fmt("put tk%05d r%d.%d", k, uni(0, 99999), uni(1, 60)) : fmt("del tk%05d", k));
+    }
+    if (chance(30)) out.push_back(new_snap(p));
+    out.push_back("flush");
+    out.push_back("crange 0 - -");
+    out.push_back("check");
+    if (chance(50)) { out.push_back("crange 1 - -"); out.push_back("check"); }
+    return;
+  }
   if (c < 22) return;  // free-form only
   if (c < 34) {
     // a few small overlapping tables over a tiny key set, pushed to various depths, then partial-range compactions
